@@ -8,7 +8,8 @@ Model driver for C11 (formatter). Requests:
         err <kind>[:<cp>]
       (after `=>`: `render_format_options` of the parsed options.)
 
-  slice <sl> <sc> <el> <ec> <ch>*        ch = cp,bytes,width ; lines end after cp 10
+  slice <sl> <sc> <el> <ec> <entry>* <ch>*   entry = @line:col:byte (token-boundary table, sorted,
+      deduplicated) ; ch = cp,bytes,width ; lines end after cp 10
       `FormatContext::source_slice` for the span (sl,sc)-(el,ec). Response
         <start> <end> T<cps a,b,..>    or    <start> <end> panic
 -/
@@ -61,18 +62,26 @@ def splitLines : List SrcSlice.Ch → List SrcSlice.Ch → List (List SrcSlice.C
   | [], cur => [cur.reverse]
   | c :: cs, cur => if c.cp == 10 then (c :: cur).reverse :: splitLines cs [] else splitLines cs (c :: cur)
 
+def parseEntry (s : String) : Option (SrcSlice.Pos × Nat) :=
+  match ((String.ofList (s.toList.drop 1)).splitOn ":").map String.toNat? with
+  | [some l, some c, some b] => some ({ line := l, col := c }, b)
+  | _ => none
+
 def handleSlice (args : List String) : String :=
   match args with
-  | sl :: sc :: el :: ec :: chs =>
+  | sl :: sc :: el :: ec :: rest =>
     match sl.toNat?, sc.toNat?, el.toNat?, ec.toNat? with
     | some sl, some sc, some el, some ec =>
+      let (es, chs) := rest.partition (fun x => x.startsWith "@")
+      let tbl := es.map parseEntry
       let cs := chs.map parseCh
-      if cs.any Option.isNone then "bad-request"
+      if cs.any Option.isNone || tbl.any Option.isNone then "bad-request"
       else
         let ls := splitLines (cs.filterMap id) []
+        let tbl := tbl.filterMap id
         let sp : SrcSlice.Span := { start := { line := sl, col := sc }, stop := { line := el, col := ec } }
-        let (s, e) := SrcSlice.sourceSlice ls sp
-        match SrcSlice.sourceSliceText ls sp with
+        let (s, e) := SrcSlice.sourceSlice ls tbl sp
+        match SrcSlice.sourceSliceText ls tbl sp with
         | some t => s!"{s} {e} T{joinNats (t.map (·.cp))}"
         | none => s!"{s} {e} panic"
     | _, _, _, _ => "bad-request"
